@@ -865,11 +865,16 @@ func (p *sshFxpReadPacket) getDataSlice(alloc *allocator, orderID uint32, maxTxP
 	if alloc != nil {
 		// GetPage returns a slice with capacity = maxMsgLength this is enough to avoid new allocations in
 		// sshFxpDataPacket.MarshalBinary
+		// A page cannot hold more than that: maxTxPacket may have been raised above it.
+		if dataLen > maxMsgLength {
+			dataLen = maxMsgLength
+		}
 		return alloc.GetPage(orderID)[:dataLen]
 	}
 
 	// allocate with extra space for the header
-	return make([]byte, dataLen, dataLen+dataHeaderLen)
+	// (computed as int: as a uint32 the sum wraps around for lengths close to 4 GiB)
+	return make([]byte, dataLen, int(dataLen)+dataHeaderLen)
 }
 
 type sshFxpRenamePacket struct {
